@@ -164,7 +164,9 @@ class Report:
         if self.internal:
             for m in self.internal:
                 print("INTERNAL-ERROR:", m, file=sys.stderr)
-            return 2
+            if not self.violations:
+                return 2
+            # a real violation was found: vacuity guards and the like are secondary
         print(
             f"{self.pid} {self.tier}: evaluations={c['evaluations']} states={c.get('states', 0)} "
             f"transitions={c.get('transitions', 0)} violations={len(self.violations)} known={len(self.known_hits)} "
